@@ -2,6 +2,7 @@ import Yaep.Driver.Case
 import Yaep.Model.Earley
 import Yaep.Model.Chart
 import Yaep.Model.Recovery
+import Yaep.Model.Api
 /-!
 # The judge: compares the observations of the real library with the model
 
@@ -13,23 +14,7 @@ Statistics lines `S <case> key=value …` feed the evidence files.
 namespace Yaep.Driver
 open Yaep
 
-structure Settings where
-  la : Int := 1
-  debug : Int := 0
-  one : Int := 1
-  cost : Int := 0
-  recov : Int := 1
-  rmatch : Int := 3
-deriving Repr, Inhabited
-
-/-- model state of one grammar object (C14/C15): nothing but its definition, settings and
-last error -/
-structure HState where
-  alive : Bool := false
-  defn : Option Grammar := none
-  st : Settings := {}
-  lastErr : Int := 0
-deriving Inhabited
+abbrev HState := ObjState
 
 structure Out where
   lines : Array String := #[]
@@ -40,7 +25,6 @@ def Out.v (o : Out) (cid : String) (opn : Nat) (prop kind : String) (ok : Bool) 
 def Out.s (o : Out) (cid : String) (msg : String) : Out :=
   { lines := o.lines.push s!"S {cid} {msg}" }
 
-def clampLa (v : Int) : Int := if v < 0 then 0 else if v > 2 then 2 else v
 
 def sortStrs (l : List String) : List String := (l.toArray.qsort (· < ·)).toList
 def dedupSorted : List String → List String
@@ -59,9 +43,6 @@ partial def expandToks : List String → List Int
   | t :: rest => toInt t :: expandToks rest
   | [] => []
 
-def termNumOfCode (g : Grammar) (code : Int) : Option Nat :=
-  (List.range g.termCodes.length).find? fun i => g.termCodes.getD i 0 == code
-
 /-- definition ops: `yaep_read_grammar` through the callbacks -/
 def judgeDef (cid : String) (o : Op) (raw : RawGrammar) (hs : HState) (out : Out) : HState × Out := Id.run do
   let mut out := out
@@ -74,7 +55,7 @@ def judgeDef (cid : String) (o : Op) (raw : RawGrammar) (hs : HState) (out : Out
   out := out.v cid o.n "C10" "K" ((rc == 0) == (expRc == 0)) s!"rc={rc} model={expRc}"
   out := out.v cid o.n "C10" "D" (rc == expRc) s!"rc={rc} model={expRc}"
   -- C15: error code = last failing call
-  let expCode := if rc != 0 then rc else hs.lastErr
+  let expCode := (hs.define res).1.lastErr
   out := out.v cid o.n "C15" "K" (code == expCode) s!"error_code={code} expected={expCode}"
   if rc != 0 then
     let msgLen := kvInt obs "msglen"
@@ -105,9 +86,9 @@ def judgeDef (cid : String) (o : Op) (raw : RawGrammar) (hs : HState) (out : Out
       let norm := fun (s : String) => " ".intercalate (words s)
       out := out.v cid o.n "C10" "D" (expRules.map norm == gotRules.map norm)
         s!"rules model={expRules} impl={gotRules}"
-    return ({ hs with defn := if rc == 0 then some g else none, lastErr := expCode }, out)
+    return ((hs.define res).1, out)
   | .error _ =>
-    return ({ hs with defn := none, lastErr := expCode }, out)
+    return ((hs.define res).1, out)
 
 structure ParseCfg where
   maxTreeToks : Nat := 9
@@ -142,16 +123,11 @@ def judgeParse (cfg : ParseCfg) (cid : String) (o : Op) (hs : HState) (out : Out
   -- C12/C13 generic: anything the harness flagged
   let crashy := (o.get "cycle").length + (o.get "badalt").length
   -- expected return code (C15)
-  let nomem := ak == "null" && fk == "user"
-  let expRc : Int :=
-    if nomem then 1 else
-    match hs.defn with
-    | none => 2
-    | some g => if codes.any (fun c => (termNumOfCode g c).isNone) then 17 else 0
+  let expRc : Int := parseRc hs (ak == "null") (fk == "user") codes
   out := out.v cid o.n "C15" "K" (rc == expRc) s!"parse rc={rc} expected={expRc}"
-  let expCode := if rc != 0 then rc else hs.lastErr
+  let expCode := (hs.record expRc).lastErr
   out := out.v cid o.n "C15" "K" (code == expCode) s!"error_code={code} expected={expCode}"
-  let hs' := { hs with lastErr := expCode }
+  let hs' := hs.record expRc
   if expRc != 0 || rc != 0 then
     if rc != 0 then
       out := out.v cid o.n "C15" "K" (rootS == "null" && nse == 0) s!"failed parse root={rootS} nse={nse}"
